@@ -70,7 +70,42 @@ def ifExp (c a b : R) : R := cond c a b
 /-- a name that is read before any assignment (`NameError`) -/
 def unbound : R := Option.none
 def lit (v : PV) : R := some v
+/-- a lookup table / constructor / enum applied to a value (`PORT_LOOKUP[p]`, `IPv4Address(v)`, `float(v)`): an opaque partial function -/
+def app (f : PV → R) (a : R) : R := a.bind f
 end Py
+
+/-- one keyword argument of a call in a loader whose value is read from a mapping of the file (`harness/extract/config_resolve.py`:
+`kwarg_sites`): `ownKey` = the first key the expression reads, `altKey` = a second key of the same mapping ("" = none),
+`f own alt fn` = the TRANSLATED expression (`fn name` = the opaque table / constructor of that name) -/
+structure KwRow where
+  function : String
+  callee : String
+  keyword : String
+  ownKey : String
+  altKey : String
+  f : Option PV → Option PV → (String → PV → R) → R
+
+/-- a property of every row of a table (a conjunction, so that each row is its own goal) -/
+def AllRows (P : KwRow → Prop) : List KwRow → Prop
+  | [] => True
+  | r :: rs => P r ∧ AllRows P rs
+
+theorem AllRows.mem {P : KwRow → Prop} : ∀ {l : List KwRow}, AllRows P l → ∀ r ∈ l, P r
+  | [], _, _, h => by cases h
+  | x :: xs, ⟨hx, hxs⟩, r, h => by
+      cases h with
+      | head => exact hx
+      | tail _ h' => exact AllRows.mem hxs r h'
+
+/-- a key that may be left out: the value handed on is `c` of the declared value - WHATEVER it is - else `c` of the literal default -/
+def optionalKey (c : PV → R) (dfl : PV) (own : Option PV) : R := c (own.getD dfl)
+/-- a key that must be there (`M[k]`): absent = the loader fails loudly -/
+def requiredKey (c : PV → R) (own : Option PV) : R := own.bind c
+/-- `None if not (p := M.get(k)) else TABLE[p]`: absent, `None` and '' (every falsy value) mean "any"; everything else is looked up -/
+def truthyLookup (c : PV → R) (own : Option PV) : R :=
+  match own with
+  | some v => if v.truthy then c v else some .none
+  | none => some .none
 
 /-- **the specification of a two-source attribute**: the entry's own value when the entry declares the key — for EVERY value,
 truthy or not — else the `defaults:` section's value, else what the constructor left (`init`); `cOwn` / `cDflt` = the coercion
